@@ -90,9 +90,9 @@ type Piece struct {
 	bigVals map[int32][]int32
 }
 
-func newPiece(block, from, to int) *Piece {
+func newPiece(block, from, to int, bigVals map[int32][]int32) *Piece {
 	return &Piece{Block: block, From: from, To: to, Masks: map[string]uint32{}, Big: map[string]int{}, Flags: map[string]int64{},
-		ViolCounts: map[string]int64{}, bitmap: make([]uint64, (to-from+63)/64), bigVals: map[int32][]int32{}}
+		ViolCounts: map[string]int64{}, bitmap: make([]uint64, (to-from+63)/64), bigVals: bigVals}
 }
 
 func (p *Piece) reach(i int) { p.bitmap[(i-p.From)>>6] |= 1 << uint((i-p.From)&63) }
@@ -109,16 +109,23 @@ func (p *Piece) seen(n, part int32) {
 	}
 }
 
-func (p *Piece) violate(sig, msg string, i int) {
+// violate counts a violation; the first three per signature and piece are kept with their message
+// (rendered lazily: a badly broken tree produces millions).
+func (p *Piece) violate(sig string, msg func() string, i int) {
 	p.ViolCounts[sig]++
 	if p.ViolCounts[sig] <= 3 {
-		p.Viol = append(p.Viol, CViol{Sig: sig, Msg: msg, Case: i})
+		p.Viol = append(p.Viol, CViol{Sig: sig, Msg: msg(), Case: i})
 	}
 }
 
-func (p *Piece) finalize() {
+// finalize counts the bitmap; the last piece of a block run also carries the number of distinct
+// partitions seen for numPartitions > 32 over the whole run (first bigCap results).
+func (p *Piece) finalize(last bool) {
 	for _, w := range p.bitmap {
 		p.Reached += int64(bits.OnesCount64(w))
+	}
+	if !last {
+		return
 	}
 	for n, l := range p.bigVals {
 		sort.Slice(l, func(i, j int) bool { return l[i] < l[j] })
@@ -366,6 +373,7 @@ func runBlock(sp *space, b Block, w *childOut) bool {
 		chunk = fineChunk
 	}
 	r := &runner{sp: sp, b: b}
+	bigVals := map[int32][]int32{}
 	for a := b.From; a < b.To; {
 		if w.late() {
 			return false
@@ -375,21 +383,26 @@ func runBlock(sp *space, b Block, w *childOut) bool {
 			e = b.To
 		}
 		w.progress(b.ID, a, -1)
-		pc := newPiece(b.ID, a, e)
+		pc := newPiece(b.ID, a, e, bigVals)
 		if r.ready == false {
 			if err := r.reset(); err != nil {
 				pc.Notes = append(pc.Notes, "SETUP: "+err.Error())
-				pc.finalize()
+				pc.finalize(e == b.To)
 				w.line(pc)
 				a = e
 				continue
 			}
 		}
-		for i := a; i < e; {
+		i := a
+		for i < e && !r.late {
 			i = r.runFrom(i, e, fine, pc, w)
 		}
-		pc.finalize()
+		pc.To = i // == e unless the deadline struck inside the piece
+		pc.finalize(e == b.To || r.late)
 		w.line(pc)
+		if r.late {
+			return false
+		}
 		a = e
 	}
 	return true
@@ -402,6 +415,7 @@ type runner struct {
 	b     Block
 	spec  ctorSpec
 	ready bool
+	late  bool // the internal deadline struck inside a piece
 
 	i1, i2       *built
 	k1, k2, kp   []byte // key buffers: instance 1, instance 2 (an equal but distinct key object), previous key
@@ -450,12 +464,16 @@ func (r *runner) runFrom(i, e int, fine bool, pc *Piece, w *childOut) (next int)
 			if len(txt) > 80 {
 				txt = txt[:80]
 			}
-			pc.violate("panic/"+r.b.Kind+"/"+strings.ReplaceAll(txt, " ", "-"), fmt.Sprintf("panic in case %v: %v", r.sp.describe(r.b, cur), x), cur)
+			pc.violate("panic/"+r.b.Kind+"/"+strings.ReplaceAll(txt, " ", "-"), func() string { return fmt.Sprintf("panic in case %v: %v", r.sp.describe(r.b, cur), x) }, cur)
 			_ = r.reset()
 			next = cur + 1
 		}
 	}()
 	for ; cur < e; cur++ {
+		if cur&4095 == 0 && cur > i && w.late() {
+			r.late = true
+			return cur
+		}
 		if fine {
 			w.progress(r.b.ID, pc.From, cur)
 		}
@@ -512,6 +530,9 @@ func (r *runner) oneKeyed(i int, pc *Piece) {
 		} else {
 			r.k1, r.k2 = r.k1[:0], r.k2[:0]
 		}
+		if fakeHashOf(r.k1, h) != h { // harness self-check: the key really carries the chosen hash
+			panic("harness: key does not encode the chosen hash")
+		}
 	} else {
 		r.k1 = r.sp.keyAt(b, i, r.k1)
 		r.k2 = append(r.k2[:0], r.k1...)
@@ -527,18 +548,20 @@ func (r *runner) oneKeyed(i int, pc *Piece) {
 	p1, err := r.i1.p.Partition(r.m1, n)
 	pc.Calls++
 	if err != nil {
-		pc.violate("error-returned/"+variant+"/"+b.Key, desc()+": Partition returned error "+err.Error(), i)
+		pc.violate("error-returned/"+variant+"/"+b.Key, func() string { return desc() + ": Partition returned error " + err.Error() }, i)
 		return
 	}
 	if p1 < 0 || p1 >= n {
-		pc.violate("out-of-range/"+variant+"/"+hashClass(h), fmt.Sprintf("%s: Partition returned %d, outside [0,%d)", desc(), p1, n), i)
+		pc.violate("out-of-range/"+variant+"/"+hashClass(h), func() string { return fmt.Sprintf("%s: Partition returned %d, outside [0,%d)", desc(), p1, n) }, i)
 		return
 	}
 	pc.reach(i)
 	pc.seen(n, p1)
 	if r.spec.reference() {
 		if want := javaPartition(h, n); p1 != want {
-			pc.violate("reference-mismatch/"+hashClass(h), fmt.Sprintf("%s: Partition returned %d, Java's toPositive(hash)%%n = (hash&0x7fffffff)%%n = %d", desc(), p1, want), i)
+			pc.violate("reference-mismatch/"+hashClass(h), func() string {
+				return fmt.Sprintf("%s: Partition returned %d, Java's toPositive(hash)%%n = (hash&0x7fffffff)%%n = %d", desc(), p1, want)
+			}, i)
 		}
 	} else if p1 == docAbsMod(h, n) {
 		pc.DocMatch++
@@ -550,7 +573,9 @@ func (r *runner) oneKeyed(i int, pc *Piece) {
 	p2, err := r.i2.p.Partition(r.m2, n)
 	pc.Calls++
 	if err != nil || p2 != p1 {
-		pc.violate("inconsistent/across-instances/"+variant, fmt.Sprintf("%s: first instance chose %d, a second instance built the same way chose %d (err=%v) for an equal key", desc(), p1, p2, err), i)
+		pc.violate("inconsistent/across-instances/"+variant, func() string {
+			return fmt.Sprintf("%s: first instance chose %d, a second instance built the same way chose %d (err=%v) for an equal key", desc(), p1, p2, err)
+		}, i)
 	}
 	// the previous key again, after this one, on the same instance
 	if r.havePrev {
@@ -560,7 +585,9 @@ func (r *runner) oneKeyed(i int, pc *Piece) {
 		pp, err := r.i1.p.Partition(r.mp, n)
 		pc.Calls++
 		if err != nil || pp != r.prevP {
-			pc.violate("inconsistent/same-instance/"+variant, fmt.Sprintf("%s: the previous key %x (hash %#08x) was mapped to %d before and to %d (err=%v) after this key, same instance", desc(), r.kp, r.prevH, r.prevP, pp, err), i)
+			pc.violate("inconsistent/same-instance/"+variant, func() string {
+				return fmt.Sprintf("%s: the previous key %x (hash %#08x) was mapped to %d before and to %d (err=%v) after this key, same instance", desc(), r.kp, r.prevH, r.prevP, pp, err)
+			}, i)
 		}
 		if b.Kind == "hash" {
 			r.i1.fake.emptyVal = h
@@ -570,10 +597,12 @@ func (r *runner) oneKeyed(i int, pc *Piece) {
 	p3, err := r.i1.p.Partition(r.m1, n)
 	pc.Calls++
 	if err != nil || p3 != p1 {
-		pc.violate("inconsistent/same-instance/"+variant, fmt.Sprintf("%s: chose %d, then %d (err=%v) for the same key on the same instance", desc(), p1, p3, err), i)
+		pc.violate("inconsistent/same-instance/"+variant, func() string {
+			return fmt.Sprintf("%s: chose %d, then %d (err=%v) for the same key on the same instance", desc(), p1, p3, err)
+		}, i)
 	}
 	if !requiresConsistency(r.i1.p, r.m1) {
-		pc.violate("consistency-flag/keyed-false", desc()+": the partitioner does not require consistency for a keyed message", i)
+		pc.violate("consistency-flag/keyed-false", func() string { return desc() + ": the partitioner does not require consistency for a keyed message" }, i)
 	}
 	// all spellings of the empty key are equal keys
 	if len(r.k1) == 0 && (b.Kind == "fnv" || isBoundary(h)) {
@@ -581,7 +610,9 @@ func (r *runner) oneKeyed(i int, pc *Piece) {
 			pa, err := r.i1.p.Partition(&sarama.ProducerMessage{Topic: "t", Key: alt}, n)
 			pc.Calls++
 			if err != nil || pa != p1 {
-				pc.violate("inconsistent/empty-key-encodings/"+variant, fmt.Sprintf("%s: empty key as %T chose %d (err=%v), as ByteEncoder{} chose %d", desc(), alt, pa, err, p1), i)
+				pc.violate("inconsistent/empty-key-encodings/"+variant, func() string {
+					return fmt.Sprintf("%s: empty key as %T chose %d (err=%v), as ByteEncoder{} chose %d", desc(), alt, pa, err, p1)
+				}, i)
 			}
 		}
 	}
@@ -589,7 +620,7 @@ func (r *runner) oneKeyed(i int, pc *Piece) {
 	r.bp.bind(r.mp, r.kp)
 	r.prevH, r.prevP, r.havePrev = h, p1, true
 
-	if r.sampled < 1 || (isBoundary(h) && r.sampled < 3 && h >= 0x80000000) {
+	if r.sampled < 1 && h >= 0x80000000 && isBoundary(h) && (n == 7 || n == maxInt32) {
 		r.sampled++
 		s := r.sp.describe(b, i)
 		s["partition"] = p1
@@ -633,11 +664,11 @@ func (r *runner) oneKeyless(i int, pc *Piece) {
 		p, err := bi.p.Partition(msg, n) // the pinned tree never returns from here (fatal stack overflow)
 		pc.Calls++
 		if err != nil {
-			pc.violate("error-returned/keyless-custom-fallback", desc+": error "+err.Error(), i)
+			pc.violate("error-returned/keyless-custom-fallback", func() string { return desc + ": error " + err.Error() }, i)
 			return
 		}
 		if p < 0 || p >= n {
-			pc.violate("out-of-range/keyless-custom-fallback", fmt.Sprintf("%s: Partition returned %d", desc, p), i)
+			pc.violate("out-of-range/keyless-custom-fallback", func() string { return fmt.Sprintf("%s: Partition returned %d", desc, p) }, i)
 			return
 		}
 		pc.reach(i)
@@ -645,9 +676,13 @@ func (r *runner) oneKeyless(i int, pc *Piece) {
 		pc.FbCalls += int64(bi.rec.calls)
 		switch {
 		case bi.rec.calls == 0:
-			pc.violate("custom-fallback-ignored/not-called", fmt.Sprintf("%s: the partitioner given to WithCustomFallbackPartitioner was never asked; result %d", desc, p), i)
+			pc.violate("custom-fallback-ignored/not-called", func() string {
+				return fmt.Sprintf("%s: the partitioner given to WithCustomFallbackPartitioner was never asked; result %d", desc, p)
+			}, i)
 		case bi.rec.calls != 1 || bi.rec.msg != msg || bi.rec.n != n || p != int32(v):
-			pc.violate("custom-fallback-ignored/wrong-forwarding", fmt.Sprintf("%s: fallback called %d times with n=%d, answered %d, Partition returned %d", desc, bi.rec.calls, bi.rec.n, v, p), i)
+			pc.violate("custom-fallback-ignored/wrong-forwarding", func() string {
+				return fmt.Sprintf("%s: fallback called %d times with n=%d, answered %d, Partition returned %d", desc, bi.rec.calls, bi.rec.n, v, p)
+			}, i)
 		}
 	} else {
 		src := &scriptSource{first: v}
@@ -655,11 +690,11 @@ func (r *runner) oneKeyless(i int, pc *Piece) {
 		p, err := bi.p.Partition(msg, n)
 		pc.Calls++
 		if err != nil {
-			pc.violate("error-returned/keyless-default-fallback", desc+": error "+err.Error(), i)
+			pc.violate("error-returned/keyless-default-fallback", func() string { return desc + ": error " + err.Error() }, i)
 			return
 		}
 		if p < 0 || p >= n {
-			pc.violate("out-of-range/keyless-default-fallback", fmt.Sprintf("%s: Partition returned %d, outside [0,%d)", desc, p, n), i)
+			pc.violate("out-of-range/keyless-default-fallback", func() string { return fmt.Sprintf("%s: Partition returned %d, outside [0,%d)", desc, p, n) }, i)
 			return
 		}
 		pc.reach(i)
@@ -671,11 +706,15 @@ func (r *runner) oneKeyless(i int, pc *Piece) {
 		}
 	}
 	if requiresConsistency(bi.p, msg) {
-		pc.violate("consistency-flag/keyless-true", desc+": the partitioner requires consistency for a keyless message", i)
+		pc.violate("consistency-flag/keyless-true", func() string { return desc + ": the partitioner requires consistency for a keyless message" }, i)
 	}
-	if i == b.From && n == 3 {
+	if i == b.From && n == 7 {
 		s := r.sp.describe(b, i)
 		s["configuration"] = sarama.VerifC17Describe(bi.p)
+		s["custom_fallback_calls"] = 0
+		if bi.rec != nil {
+			s["custom_fallback_calls"] = bi.rec.calls
+		}
 		pc.Samples = append(pc.Samples, s)
 	}
 }
@@ -686,19 +725,23 @@ func (r *runner) oneRandom(i int, pc *Piece) {
 	p := sarama.NewRandomPartitioner("t")
 	src := &scriptSource{first: v}
 	scripted := sarama.VerifC17ScriptRandom(p, src)
+	last := int32(-1)
 	for _, msg := range []*sarama.ProducerMessage{{Topic: "t"}, {Topic: "t", Key: sarama.StringEncoder("k")}} {
 		src.draws = 0
 		got, err := p.Partition(msg, n)
 		pc.Calls++
 		if err != nil {
-			pc.violate("error-returned/random", fmt.Sprintf("NewRandomPartitioner n=%d draw=%d: error %v", n, v, err), i)
+			pc.violate("error-returned/random", func() string { return fmt.Sprintf("NewRandomPartitioner n=%d draw=%d: error %v", n, v, err) }, i)
 			return
 		}
 		if got < 0 || got >= n {
-			pc.violate("out-of-range/random", fmt.Sprintf("NewRandomPartitioner n=%d first 31-bit draw=%d: Partition returned %d", n, v, got), i)
+			pc.violate("out-of-range/random", func() string {
+				return fmt.Sprintf("NewRandomPartitioner n=%d first 31-bit draw=%d: Partition returned %d", n, v, got)
+			}, i)
 			return
 		}
 		pc.seen(n, got)
+		last = got
 		if scripted && src.draws > 0 {
 			pc.Scripted++
 		} else {
@@ -706,6 +749,11 @@ func (r *runner) oneRandom(i int, pc *Piece) {
 		}
 	}
 	pc.reach(i)
+	if i == b.From && n == 7 {
+		s := r.sp.describe(b, i)
+		s["partition"] = last
+		pc.Samples = append(pc.Samples, s)
+	}
 	pc.Flags[fmt.Sprintf("random.RequiresConsistency=%v", p.RequiresConsistency())]++
 }
 
@@ -717,7 +765,9 @@ func (r *runner) oneManual(i int, pc *Piece) {
 		got, err := p.Partition(&sarama.ProducerMessage{Topic: "t", Key: key, Partition: v}, n)
 		pc.Calls++
 		if err != nil || got != v {
-			pc.violate("manual-mismatch", fmt.Sprintf("NewManualPartitioner msg.Partition=%d numPartitions=%d: Partition returned %d, err=%v", v, n, got, err), i)
+			pc.violate("manual-mismatch", func() string {
+				return fmt.Sprintf("NewManualPartitioner msg.Partition=%d numPartitions=%d: Partition returned %d, err=%v", v, n, got, err)
+			}, i)
 			return
 		}
 		if got >= 0 && got < n {
@@ -725,6 +775,11 @@ func (r *runner) oneManual(i int, pc *Piece) {
 		}
 	}
 	pc.reach(i)
+	if i == b.From && n == 7 {
+		s := r.sp.describe(b, i)
+		s["partition"] = v
+		pc.Samples = append(pc.Samples, s)
+	}
 	pc.Flags[fmt.Sprintf("manual.RequiresConsistency=%v", p.RequiresConsistency())]++
 }
 
@@ -767,32 +822,39 @@ func (r *runner) oneRR(i int, pc *Piece) {
 			change = "far-cursor"
 		}
 		if err != nil {
-			pc.violate("error-returned/roundrobin", fmt.Sprintf("round-robin start=%d counts=%v call %d: error %v", b.Start, seq, k, err), i)
+			pc.violate("error-returned/roundrobin", func() string {
+				return fmt.Sprintf("round-robin start=%d counts=%v call %d: error %v", b.Start, seq, k, err)
+			}, i)
 			return
 		}
 		if got < 0 || got >= n {
-			pc.violate("out-of-range/roundrobin/"+change, fmt.Sprintf("round-robin start cursor=%d numPartitions sequence=%v: call %d (n=%d) returned %d, outside [0,%d); results so far %v", b.Start, seq, k, n, got, n, res[:k]), i)
+			pc.violate("out-of-range/roundrobin/"+change, func() string {
+				return fmt.Sprintf("round-robin start cursor=%d numPartitions sequence=%v: call %d (n=%d) returned %d, outside [0,%d); results so far %v", b.Start, seq, k, n, got, n, res[:k])
+			}, i)
 			return
 		}
 		pc.seen(n, got)
 		res[k] = got
 		if int64(k-runStart) >= int64(n) {
 			if got != res[k-int(n)] {
-				pc.violate("roundrobin-not-a-cycle/period", fmt.Sprintf("round-robin start=%d counts=%v: call %d returned %d but call %d (n=%d calls earlier, same count) returned %d; results %v", b.Start, seq, k, got, k-int(n), n, res[k-int(n)], res[:k+1]), i)
+				pc.violate("roundrobin-not-a-cycle/period", func() string {
+					return fmt.Sprintf("round-robin start=%d counts=%v: call %d returned %d but call %d (n=%d calls earlier, same count) returned %d; results %v", b.Start, seq, k, got, k-int(n), n, res[k-int(n)], res[:k+1])
+				}, i)
 				return
 			}
 		} else {
 			for j := runStart; j < k; j++ {
 				if res[j] == got {
-					pc.violate("roundrobin-not-a-cycle/repeat-before-all-visited", fmt.Sprintf("round-robin start=%d counts=%v: call %d returned %d again (as call %d) before all %d partitions were visited; results %v", b.Start, seq, k, got, j, n, res[:k+1]), i)
+					pc.violate("roundrobin-not-a-cycle/repeat-before-all-visited", func() string {
+						return fmt.Sprintf("round-robin start=%d counts=%v: call %d returned %d again (as call %d) before all %d partitions were visited; results %v", b.Start, seq, k, got, j, n, res[:k+1])
+					}, i)
 					return
 				}
 			}
 		}
 	}
 	pc.reach(i)
-	if i == b.From && r.sampled < 1 {
-		r.sampled++
+	if i == r.sp.size(b)*5/7 {
 		s := r.sp.describe(b, i)
 		s["partitions"] = append([]int32(nil), res...)
 		pc.Samples = append(pc.Samples, s)
